@@ -5,7 +5,7 @@
    `reachable v max s`: s is reached from `init max` by ANY finite interleaving of Collect steps,
    any number of Pop and End callers, and peers closing on their own (unbounded). *)
 From Coq Require Import List Arith Bool.
-From Snow Require Import Model.Peers Model.Connect Proofs.PeersProofs Proofs.ConnectProofs.
+From Snow Require Import Model.Peers Model.Connect Model.CloseConn Proofs.PeersProofs Proofs.ConnectProofs Proofs.CloseConnProofs.
 Import ListNotations.
 
 (* ---- bound.  "Held" = every peer that Catch has ever returned and that is not closed (they are all
@@ -142,3 +142,60 @@ Qed.
 
 Example C15_ex_nil_pc : o_newpc (mkO false true true true true true true) = false.
 Proof. reflexivity. Qed.
+
+(* ==== SnowflakeConn.Close (coq/Model/CloseConn.v: Stream.Close, result ignored; then End, unconditionally; then
+   pconn.Close and sess.Close) composed with the Peers machine.  `creachable K_pinned v max c`: c is reached by ANY
+   interleaving of Peers steps (connect loop, data path, other End callers, peers closing), the session dying on its
+   own, the stream being closed directly, and any number of Close calls. *)
+
+(* ---- once a Close call is past its End (in particular once it has returned): every peer ever caught is closed,
+   the collection has ended, no rendezvous attempt is in flight - whether or not the session was dead, the stream
+   closed before, or other Close calls overlap *)
+Theorem C15_close_closes_all : forall v max c k pc, creachable K_pinned v max c ->
+  nth_error (closers c) k = Some pc -> returned pc = true ->
+  (forall p, p < next_peer (ps c) -> closedf (ps c) p = true) /\ live_peers (ps c) = [] /\
+  melted (ps c) = true /\ chan_closed (ps c) = true /\ col_hasconn (col (ps c)) = false.
+Proof.
+  intros v max c k pc R Hk Hr.
+  exact (close_after_end_facts _ _ _ _ _ _ R Hk (close_returned_ended _ _ _ _ _ R Hk Hr)).
+Qed.
+
+(* ---- and that stays so for ever: whatever happens after Close has returned (the connect loop calling Collect again,
+   further Close calls, ...), no rendezvous attempt is in flight and no peer is held in any later state *)
+Theorem C15_close_stops_rendezvous : forall v max c k pc tr c', creachable K_pinned v max c ->
+  nth_error (closers c) k = Some pc -> returned pc = true -> crun K_pinned v c tr = Some c' ->
+  col (ps c') <> C_Catching /\ live_peers (ps c') = [] /\ melted (ps c') = true.
+Proof.
+  intros v max c k pc tr c' R Hk Hr Hrun.
+  exact (close_stops_rendezvous _ _ _ _ _ _ _ _ R Hk (close_returned_ended _ _ _ _ _ R Hk Hr) Hrun).
+Qed.
+
+(* ---- Close returns (repaired Peers code): from EVERY reachable state, every Close call that has not returned completes
+   within 20 steps, all of them its own, steps of End callers, or steps of the collector already inside Collect
+   (whichever way the in-flight Catch returns: oracle).  Stream.Close, pconn.Close, sess.Close are assumed to return. *)
+Theorem C15_close_terminates : forall max c k pc (oracle : bool), creachable K_pinned V1 max c ->
+  nth_error (closers c) k = Some pc ->
+  exists tr c', length tr <= 20 /\ Forall (close_helpful k oracle) tr /\
+    crun K_pinned V1 c tr = Some c' /\ nth_error (closers c') k = Some (K_Done true).
+Proof. exact close_terminates. Qed.
+
+(* ---- the theorems above depend on End being called unconditionally: a Close that returns when Stream.Close reports
+   an error leaves the collection running with a rendezvous in flight *)
+Theorem C15_close_early_return_refuted : exists c, crun K_early V1 (kinit 1) trace_early = Some c /\
+  nth_error (closers c) 0 = Some (K_Done false) /\ melted (ps c) = false /\ col (ps c) = C_Catching.
+Proof. exact early_leaves_collection_running. Qed.
+
+Example C15_ex_close_dead_session : exists c, crun K_pinned V1 (kinit 2) trace_dead_then_close = Some c /\
+  creachable K_pinned V1 2 c /\ sess_dead c = true /\ col (ps c) = C_Catching /\
+  nth_error (closers c) 1 = Some K_Stream /\ live_peers (ps c) = [0].
+Proof. exact ex_dead_then_close. Qed.
+
+Example C15_ex_close_returned : exists c, creachable K_pinned V1 2 c /\ nth_error (closers c) 0 = Some (K_Done true) /\
+  sess_dead c = true /\ next_peer (ps c) = 1.
+Proof.
+  destruct (crun K_pinned V1 (kinit 2) (map L_P collect_ok ++ [L_SessDies; L_Close; L_Stream 0; L_CallEnd 0] ++
+     map L_P [End_once 0; End_melt 0; End_lock 0; End_closechan 0; End_closepeers 0; End_unlock 0; End_finish 0] ++
+     [L_EndRet 0; L_Pconn 0; L_Sess 0])) as [c|] eqn:E; [|vm_compute in E; discriminate].
+  exists c. split; [eapply crun_reachable; [apply creach_init|exact E]|].
+  vm_compute in E. inversion E; subst. repeat split.
+Qed.
